@@ -35,6 +35,7 @@ template <class Real> class Decorated : public csg::TrajectoryReader {
 
  private:
   bool read(csg::Topology &top, bool first) {
+    sim::Harness harness_scope;
     Monitors &m = mon();
     sim::set_phase(PH_READING);
     m.reader.enter(U_READER_IN);
@@ -46,6 +47,7 @@ template <class Real> class Decorated : public csg::TrajectoryReader {
     if (!ok) m.probes["eof_seen"]++;
     m.reader.leave(U_READER_OUT);
     sim::set_phase(PH_IDLE);
+    if (ok && sim::self() >= 1) mark_evaluating(sim::self(), true);  // what follows until the next mutex operation is map + EvalConfiguration
     return ok;
   }
   Real real_;
@@ -88,6 +90,7 @@ struct Outcome {
   int exit_code = 0;
   std::string err, marked;
   long branch = 0;
+  long alloc_taken = 0;
   std::map<std::string, std::string> files;
   sim::Result res;
   std::map<std::string, long> probes;
@@ -127,9 +130,12 @@ Outcome run_tool(const Plan &plan, const Case &c, int N, const std::string &outd
     Silence quiet(c05tool::stdout_marker != nullptr);
     o.res = sim::run(cfg, [&] {
       install_phase_observer();
+      if (!reference && plan.alloc_stride > 0)
+        sim::set_alloc_points(plan.alloc_stride, (long)(plan.case_seed % 1000), [] { return is_evaluating(sim::self()); });
       sim::set_on_decision([&] { if (states.size() < 100000) states.push_back(sim::abstract_state()); });
       sim::set_on_uncaught([&](int task, const std::string &what) { o.uncaught = "task " + std::to_string(task) + ": " + what; });
       o.exit_code = tool_main((int)argv.size() - 1, argv.data());
+      o.alloc_taken = sim::alloc_points_taken();
     }, 16u << 20);
     o.err = quiet.err.str();
     if (c05tool::stdout_marker) {
@@ -144,6 +150,7 @@ Outcome run_tool(const Plan &plan, const Case &c, int N, const std::string &outd
   if (chdir(g_scratch.c_str()) != 0) {}
   o.obs = sim::mutex_obs();
   o.probes = mon().probes;
+  o.probes["alloc_points"] = o.alloc_taken;
   std::sort(states.begin(), states.end());
   states.erase(std::unique(states.begin(), states.end()), states.end());
   o.states = std::move(states);
@@ -249,6 +256,7 @@ struct Tool {
     p.chain = 2 + (int)r.below(3);
     p.fmt = r.chance(0.3) ? 1 : 0;
     p.vol_jitter = r.chance(0.5);
+    { long strides[6] = {0, 0, 0, 5, 29, 173}; p.alloc_stride = strides[r.below(6)]; }
     c05tool::tool_generate(p, r, tier);
     p.pick_strategy(r);
     return p;
@@ -259,7 +267,7 @@ struct Tool {
     p.base_to_json(v);
     v.set("tool", c05tool::engine_name).set("N", p.N).set("F", p.F).set("first_frame", p.first_frame).set("nframes", p.nframes)
      .set("case_seed", (long long)p.case_seed).set("nmol", p.nmol).set("chain", p.chain).set("fmt", p.fmt).set("variant", p.variant)
-     .set("block", p.block).set("vol_jitter", p.vol_jitter).set("variant_meaning", c05tool::tool_variant_json(p));
+     .set("block", p.block).set("vol_jitter", p.vol_jitter).set("alloc_stride", p.alloc_stride).set("variant_meaning", c05tool::tool_variant_json(p));
     return v;
   }
   static Plan from_json(const js::Value &v) {
@@ -268,6 +276,7 @@ struct Tool {
     p.N = (int)v.num("N", 2); p.F = (int)v.num("F", 1); p.first_frame = (long)v.num("first_frame", -1); p.nframes = (long)v.num("nframes", -1);
     p.case_seed = (uint64_t)v.num("case_seed", 0); p.nmol = (int)v.num("nmol", 4); p.chain = (int)v.num("chain", 2); p.fmt = (int)v.num("fmt", 0);
     p.variant = (int)v.num("variant", 0); p.block = (int)v.num("block", 0); p.vol_jitter = (int)v.num("vol_jitter", 0);
+    p.alloc_stride = (long)v.num("alloc_stride", 0);
     return p;
   }
 
@@ -280,6 +289,7 @@ struct Tool {
     if (p.block > 0) { Plan q = p; q.block = 0; out.push_back(q); }
     if (p.nmol > 4) { Plan q = p; q.nmol = 4; out.push_back(q); }
     if (p.vol_jitter) { Plan q = p; q.vol_jitter = 0; out.push_back(q); }
+    if (p.alloc_stride > 0) { Plan q = p; q.alloc_stride = 0; out.push_back(q); q = p; q.alloc_stride = p.alloc_stride * 4; out.push_back(q); }
     if (p.fmt) { Plan q = p; q.fmt = 0; out.push_back(q); }
     for (int b = 0; b < 8; b++) if (p.variant & (1 << b)) { Plan q = p; q.variant &= ~(1 << b); out.push_back(q); }
     if (p.strat_type != sim::Strategy::RW) { Plan q = p; q.strat_type = sim::Strategy::RW; out.push_back(q); }
@@ -320,7 +330,7 @@ struct Tool {
       }
     }
     const bool well_conditioned = sensitivity < c05tool::conditioning_gate && c05tool::tool_numbers_comparable(plan);
-    long budget = 50 * ref.res.steps * plan.N + 2000;
+    long budget = 50 * ref.res.steps * plan.N + 2000 + (plan.alloc_stride > 0 ? 500000 : 0);
     Outcome o = run_tool(plan, c, plan.N, g_scratch + "/run", spec, budget, false);
     rep.absorb(o.res);
     rep.decisions = o.res.decisions;
